@@ -16,11 +16,11 @@ import (
 // real function: specification expressions evaluated in the entry state are read from the model and
 // handed (as JSON) to an in-package Go test injected with -overlay.
 type ReplaySpec struct {
-	Func   string            `json:"func"`   // unit name, e.g. "lib/journal/check.(*Checker).balance"
-	Pkg    string            `json:"pkg"`    // package directory relative to the repo
-	Test   string            `json:"test"`   // test source file relative to /verif/replay
-	Run    string            `json:"run"`    // test name
-	Values map[string]string `json:"values"` // name -> specification expression (entry state)
+	Func   string            `json:"func"`             // unit name, e.g. "lib/journal/check.(*Checker).balance"
+	Pkg    string            `json:"pkg"`              // package directory relative to the repo
+	Test   string            `json:"test"`             // test source file relative to /verif/replay
+	Run    string            `json:"run"`              // test name
+	Values map[string]string `json:"values"`           // name -> specification expression (entry state)
 	Assume string            `json:"assume,omitempty"` // optional: a specification expression (entry state) that narrows the search for a model to the domain of the harness; a model found under it is still a model of the refuted obligation
 }
 
